@@ -125,11 +125,14 @@ theorem refine_CheckMnemonic (W : World) (s : Str) (ℓ : Int) (st : St) :
           dsimp only
           have h8 : ¬ cs > 8 := by omega
           rw [bind_ok (bigQuo_nat _ _ hd2 st'), if_neg h8, if_neg hd2]
-          rw [bigCmp_ne_zero, bigAnd_nat]
+          -- the final comparison, whichever way round the source writes it (`!= 0 … return err` or
+          -- `== 0 … return nil`)
+          rw [bigAnd_nat]
+          first | rw [bigCmp_ne_zero] | rw [bigCmp_eq_zero]
           by_cases hne : beNat first / 1 <<< (8 - cs) = entBig &&& (1 <<< cs - 1)
-          · have hi : ¬ (((beNat first / 1 <<< (8 - cs) : Nat) : Int) ≠ ((entBig &&& (1 <<< cs - 1) : Nat) : Int)) := by omega
-            simp only [hne, decide_false, Bool.false_eq_true, if_false, ne_eq, not_true_eq_false]; rfl
-          · have hi : (((beNat first / 1 <<< (8 - cs) : Nat) : Int) ≠ ((entBig &&& (1 <<< cs - 1) : Nat) : Int)) := by omega
-            simp only [hi, hne, decide_true, if_true, ne_eq, not_false_eq_true]; rfl
+          · have hi : ((beNat first / 1 <<< (8 - cs) : Nat) : Int) = ((entBig &&& (1 <<< cs - 1) : Nat) : Int) := by omega
+            simp only [hi, hne, decide_true, decide_false, Bool.false_eq_true, if_true, if_false, ne_eq, not_true_eq_false]; rfl
+          · have hi : ¬ (((beNat first / 1 <<< (8 - cs) : Nat) : Int) = ((entBig &&& (1 <<< cs - 1) : Nat) : Int)) := by omega
+            simp only [hi, hne, decide_true, decide_false, Bool.false_eq_true, if_true, if_false, ne_eq, not_false_eq_true]; rfl
 
 end Bip39V
